@@ -24,11 +24,11 @@ func init() {
 		ID:    "C02",
 		Level: "exploration",
 		Rule: "FinalizeToken(s) on (request state, response) pairs for types 1,2,3,5: honest responses, every single-bit flip of each honest response (exhaustive), the full cross-pairing matrix of K states x K responses over 2-3 issuer keys, truncations/extensions, " +
-			"and for type 5 every single-element drop, duplication, adjacent and seeded swaps, appended element, foreign proof. Universal oracle on every call: a nil error implies the token verifies under the key the request was created for (circl FullEvaluate / crypto/rsa.VerifyPSS) and carries that request's type, nonce, SHA-256(challenge) and key id. " +
+			"and for type 5 every single-element drop, duplication, adjacent and seeded swaps, appended element, foreign proof, and the same attacks carried out by a malicious holder of the issuer key (honest evaluations, with valid batch proofs, of shortened / permuted / duplicated / extended copies of the request's element list). Universal oracle on every call: a nil error implies the token verifies under the key the request was created for (circl FullEvaluate / crypto/rsa.VerifyPSS) and carries that request's type, nonce, SHA-256(challenge) and key id. " +
 			"Rejection oracle: every listed corruption must return an error. Lifecycle part: up to 4 requests of one type outstanding at once, created and finalized (garbage, bit-flipped and honest responses, evaluated from the wire bytes captured at creation) in seeded interleavings; every honest finalization must succeed with the token of its own request. distinct_nontrivial = distinct (type, corruption class, state, position) keys",
 		// (the rejected_by_* classes are recognised from error texts and therefore only reported, not required)
 		Floors: []string{"accepted_valid",
-			"type1_bitflips", "type2_bitflips", "type3_bitflips", "type5_bitflips", "cross_pair_rejected", "type5_drop_rejected", "type5_dup_rejected", "type5_swap_rejected", "lifecycle_sequences", "lifecycle_honest_finalized", "odd_salt_lengths", "client_object_reused_across_keys"},
+			"type1_bitflips", "type2_bitflips", "type3_bitflips", "type5_bitflips", "cross_pair_rejected", "type5_drop_rejected", "type5_dup_rejected", "type5_swap_rejected", "type5_valid_proof_prefix_rejected", "type5_valid_proof_permuted_rejected", "lifecycle_sequences", "lifecycle_honest_finalized", "odd_salt_lengths", "client_object_reused_across_keys"},
 		Assumptions: []string{"single-bit flips change the mathematical response (argued in DESIGN.md C02); nonces in a batch are distinct so swaps are never of equal elements"},
 		Run:         runC02,
 	})
@@ -213,6 +213,9 @@ func runC02(c *core.Ctx) {
 	// ---- type 5
 	var p5 []c02Pair
 	var p5n []int
+	// p5mal[i](idx) is what a MALICIOUS holder of the issuer key answers: the honest evaluation, with a valid batch
+	// proof, of the list made of the request's blinded elements idx[0], idx[1], ...
+	var p5mal []func(idx []int) ([]byte, error)
 	{
 		keys := []*oprf.PrivateKey{VOPRFKey(oprf.SuiteRistretto255, setup.Bytes(32)), VOPRFKey(oprf.SuiteRistretto255, setup.Bytes(32))}
 		sizes := []int{1, 2, 3, 5, 2, 3, 4, 8, 3, 2, 6, 3}
@@ -245,6 +248,15 @@ func runC02(c *core.Ctx) {
 					return fmt.Errorf("authenticator != VOPRF(key, token input)")
 				}}, resp})
 			p5n = append(p5n, nb)
+			blindedReq := st.Request().BlindedReq
+			reqKeyID := st.Request().TokenKeyID
+			p5mal = append(p5mal, func(idx []int) ([]byte, error) {
+				var list [][]byte
+				for _, j := range idx {
+					list = append(list, clone(blindedReq[j]))
+				}
+				return issuer.Evaluate(&type5.BatchedPrivateTokenRequest{TokenKeyID: reqKeyID, BlindedReq: list})
+			})
 		}
 	}
 
@@ -363,6 +375,55 @@ func runC02(c *core.Ctx) {
 				_, _, pr2 := splitType5Response(q.resp, p5n[j])
 				c02Call(c, p.st, build(elems, pr2), fmt.Sprintf("foreign-proof#%d", j), true)
 			}
+		}
+		// the same structure attacks by a malicious holder of the issuer key: each response is an honest evaluation, WITH A
+		// VALID PROOF, of a shortened / permuted / duplicated / extended copy of the request's element list
+		{
+			all := make([]int, nb)
+			for j := range all {
+				all[j] = j
+			}
+			try := func(idx []int, cls, floor string) {
+				resp, err := p5mal[i](idx)
+				if err != nil {
+					return
+				}
+				same := len(idx) == nb
+				for j := range idx {
+					same = same && idx[j] == j
+				}
+				if same {
+					return
+				}
+				c02Call(c, p.st, resp, "issuer-evaluated-"+cls, true)
+				c.Class(floor)
+			}
+			for n := 1; n < nb; n++ {
+				try(all[:n], fmt.Sprintf("prefix#%d", n), "type5_valid_proof_prefix_rejected")
+				try(all[nb-n:], fmt.Sprintf("suffix#%d", n), "type5_valid_proof_prefix_rejected")
+			}
+			for d := 0; d < nb && nb > 1; d++ {
+				idx := append(append([]int{}, all[:d]...), all[d+1:]...)
+				try(idx, fmt.Sprintf("without#%d", d), "type5_valid_proof_prefix_rejected")
+				dup := append([]int{}, all...)
+				dup[d] = all[(d+1)%nb]
+				try(dup, fmt.Sprintf("duplicate#%d", d), "type5_valid_proof_permuted_rejected")
+			}
+			for a := 0; a+1 < nb; a++ {
+				sw := append([]int{}, all...)
+				sw[a], sw[a+1] = sw[a+1], sw[a]
+				try(sw, fmt.Sprintf("swap#%d", a), "type5_valid_proof_permuted_rejected")
+			}
+			if nb > 1 {
+				rot := append(append([]int{}, all[1:]...), all[0])
+				try(rot, "rotation", "type5_valid_proof_permuted_rejected")
+				rev := make([]int, nb)
+				for j := range rev {
+					rev[j] = nb - 1 - j
+				}
+				try(rev, "reversed", "type5_valid_proof_permuted_rejected")
+			}
+			try(append(append([]int{}, all...), 0), "extended-by-first", "type5_valid_proof_permuted_rejected")
 		}
 		// non-minimal varint prefix with the honest content: same mathematical response, accepted or rejected both fine;
 		// only the universal oracle applies
